@@ -94,6 +94,18 @@ func hostileBytes(n J, b *bytes.Buffer) {
 				fmt.Fprintf(b, `"id":"https://example.com/c/%d","type":"Person","inbox":"https://example.com/c/%d/inbox",`, i, i)
 			case "collection":
 				fmt.Fprintf(b, `"id":"https://example.com/c/%d","type":"OrderedCollection","totalItems":1,`, i)
+			case "idless-activity":
+				b.WriteString(`"type":"Create","actor":"https://example.com/a",`)
+			case "idless-person":
+				b.WriteString(`"type":"Person","preferredUsername":"p",`)
+			case "idless-collection":
+				b.WriteString(`"type":"OrderedCollection","totalItems":1,`)
+			case "idless-ucollection":
+				b.WriteString(`"type":"Collection","totalItems":1,`)
+			case "idless-page":
+				b.WriteString(`"type":"CollectionPage","totalItems":1,`)
+			case "idless-opage":
+				b.WriteString(`"type":"OrderedCollectionPage","totalItems":1,`)
 			case "href":
 				fmt.Fprintf(b, `"href":"https://example.com/h/%d",`, i)
 			case "link":
